@@ -495,6 +495,8 @@ class Exec(Executor):
                 if new is not None:
                     if isinstance(new, SV):
                         new.fresh = getattr(recv, "fresh", False)
+                        if new.td == TTagSet:
+                            new.kind = "mutable"  # only a set has in-place mutators
                     r = self.assign_target(_as_store(recv_node), new, s2, node)
                     if r is not None:
                         return r
@@ -568,6 +570,11 @@ class Exec(Executor):
                 r = h(self, callee, args, kwargs, st, node)
                 if r is not None:
                     return r
+        h = self.hooks.get("call_pyval")
+        if h is not None:
+            r = h(self, callee, args, kwargs, st, node)
+            if r is not None:
+                return r
         raise OutsideSubset(f"call of {callee!r}", node)
 
     def call_closure(self, c: Closure, args: list[Any], kwargs: dict[str, Any], st: State, node: ast.AST) -> list[Res]:
@@ -860,6 +867,8 @@ class Exec(Executor):
                         post.assume(iv.td.info.len(iv.z) >= 0)
             else:
                 res.fresh = k.fresh_result
+        if isinstance(res, SV) and res.td in (TTagSet, TOptTagSet) and res.kind is None:
+            res.kind = self.annotation_kind(("method", fi.cls, fi))  # declared ``-> frozenset[...]``: checked where the callee is verified
         # whatever the call returns exists when it returns: allocated before the exit clock
         for iv in (res.items if isinstance(res, PyTuple) else [res]):
             if isinstance(iv, SV) and isinstance(iv.td, TRefT) and not k.pure and not k.attr:
@@ -1020,6 +1029,20 @@ class Exec(Executor):
             if isinstance(td, TRefT):
                 st.assume(smt.born(v.z) <= smt.born(ref.z))
         st.owned[ref.z.get_id()] = own
+        # hashability at the value level (C09): a field declared ``frozenset[...]`` must be given a frozenset, not a set
+        # (dataclasses do not convert; a set there makes the object -- and every tree containing it -- unhashable)
+        if ci.is_dataclass and ci.dc_frozen and ci.dc_eq:
+            for f in ci.all_fields():
+                if f.initvar or not f.compare:
+                    continue
+                if self.annotation_kind(("field", None, f)) != "frozen":
+                    continue
+                v = uc.pending(st).get(f.name)
+                if isinstance(v, SV) and v.td in (TTagSet, TOptTagSet):
+                    okk = z3.BoolVal(v.kind == "frozen")
+                    if v.td == TOptTagSet:
+                        okk = z3.Or(smt.OptTagSet.is_ots_none(v.z), okk)
+                    self.oblige(st, f"construct {ci.name}/field-{f.name}-holds-a-frozenset", okk, node, kind="frozen-field")
         # construction-site obligations (class invariants) registered by contracts
         for c in ci.mro:
             for cl in self.reg.constructor_hooks.get(c.name, []):
@@ -1090,16 +1113,17 @@ class Exec(Executor):
         if name == "tagset.isdisjoint" and len(args) == 2 and all(isinstance(x, SV) and x.td == TTagSet for x in args):
             return self.ok(SV(TBool, z3.SetIntersect(args[0].z, args[1].z) == smt.EMPTY_TAGS), st)
         if name in ("set", "frozenset"):
+            knd = "frozen" if name == "frozenset" else "mutable"
             if not args:
-                return self.ok(SV(TTagSet, smt.EMPTY_TAGS, fresh=True), st)
+                return self.ok(SV(TTagSet, smt.EMPTY_TAGS, fresh=True, kind=knd), st)
             v = args[0]
             if isinstance(v, SV) and v.td == TTagSet:
-                return self.ok(SV(TTagSet, v.z, fresh=True), st)
+                return self.ok(SV(TTagSet, v.z, fresh=True, kind=knd), st)
             if isinstance(v, (PyTuple, PyList)) and all(isinstance(x, SV) and x.td == TTag for x in v.items):
                 z = smt.EMPTY_TAGS
                 for x in v.items:
                     z = z3.SetAdd(z, x.z)
-                return self.ok(SV(TTagSet, z, True), st)
+                return self.ok(SV(TTagSet, z, True, kind=knd), st)
         if name in ("tuple", "list"):
             if not args:
                 return self.ok(PyTuple([]) if name == "tuple" else PyList([], True), st)
@@ -1212,6 +1236,21 @@ class Exec(Executor):
                 z = z3.ForAll([i], z3.Implies(rng, body), patterns=[info.at(it.z, i)])
             else:
                 z = z3.Exists([i], z3.And(rng, body))
+            return self.ok(SV(TBool, z), st)
+        if isinstance(it, SV) and it.td == TTagSet and isinstance(comp.target, ast.Name):
+            # any(f(t) for t in S) / all(...) over a set of column tags: a bounded quantifier over its members
+            t = z3.Const(smt.fresh_name("qt"), smt.Tag)
+            s1 = s0.fork()
+            s1.env = dict(s1.env)
+            base_n = len(s1.pc)
+            s1.env[comp.target.id] = SV(TTag, t)
+            r1 = self.ev(g.elt, s1)
+            r1 = self.merge_pure(r1, s1) if len(r1) > 1 else r1
+            if len(r1) != 1 or r1[0].kind != "ok" or r1[0].state.pc[base_n:]:
+                raise OutsideSubset("generator body over a tag set forks, may raise or has side facts", node)
+            body = self.truth(r1[0].value, r1[0].state, node)
+            mem = z3.IsMember(t, it.z)
+            z = z3.ForAll([t], z3.Implies(mem, body), patterns=[mem]) if name == "all" else z3.Exists([t], z3.And(mem, body))
             return self.ok(SV(TBool, z), st)
         raise OutsideSubset(f"{name}() over {it!r}", node)
 
